@@ -273,7 +273,7 @@ def run_case(case, ctx):
         return core.run_session(sys.modules[__name__], ctx, case, _session_cases(case['name'], ctx.tier), 16)
     if m == 'bfs':
         sysm = ViewSystem(case['kind'], ctx.seed)
-        st = X.bfs(sysm, ctx, case['depth'], deadline=time.time() + (200 if ctx.tier == 'quick' else 2000),
+        st = X.bfs(sysm, ctx, case['depth'], deadline=time.time() + (500 if ctx.tier == 'quick' else 3000),
                    prefix=case.get('prefix'), expand=case.get('prefix') is not None, label='views/' + case['kind'])
         for k in ('states', 'transitions', 'merged', 'determinism_checks'):
             ctx.extra['bfs_' + k] += st[k]
